@@ -258,6 +258,47 @@ def check_b(ck, repo):
             sig.append((first, ok, tuple(sorted((k, _t(v).replace(".iloc", "").replace(cor or "?", "COR")) for k, v in st.items()))))
         ck.verdict(bool(sig) and all(ok for _, ok, _ in sig) and {f for f, _, _ in sig} == {True, False}, "C18.b", fi, f"min/max bookkeeping ({'frame' if frame else 'array'})", "min and max start at the first draw's term and are updated with min/max of the same term", "min/max bookkeeping changed: min <= mean <= max can fail (not initialised at the first draw, or not updated with min/max of the accumulated term)")
         by_kind[frame] = sorted(s_[2] for s_ in sig)
+    # the running extremum of a cell is updated from that very cell: `maxi` and `mini` start as
+    # equal copies, so the evaluation above cannot tell them apart - the statements can
+    def _local_value(name_, st_):
+        body_ = getattr(st_, "_parent", None)
+        seq = None
+        for fld in ("body", "orelse", "finalbody"):
+            if st_ in getattr(body_, fld, []):
+                seq = getattr(body_, fld)
+        if seq is None:
+            return None
+        for prev in reversed(seq[: seq.index(st_)]):
+            if isinstance(prev, ast.Assign):
+                for t_ in prev.targets:
+                    if isinstance(t_, ast.Name) and t_.id == name_:
+                        return prev.value
+                    if isinstance(t_, (ast.Tuple, ast.List)) and isinstance(prev.value, (ast.Tuple, ast.List)) and len(t_.elts) == len(prev.value.elts):
+                        for te_, ve_ in zip(t_.elts, prev.value.elts):
+                            if isinstance(te_, ast.Name) and te_.id == name_:
+                                return ve_
+        return None
+
+    n_upd = 0
+    ext_names = {t_.id for a_ in own_nodes(fi.node) if isinstance(a_, ast.Assign) and isinstance(a_.value, ast.Call) and isinstance(a_.value.func, ast.Attribute) and a_.value.func.attr == "copy" for t_ in a_.targets if isinstance(t_, ast.Name)}
+    for st_ in ast.walk(nest[-1]):
+        if not (isinstance(st_, ast.Assign) and len(st_.targets) == 1 and isinstance(st_.targets[0], ast.Subscript) and isinstance(st_.value, ast.Call) and src_of(st_.value.func) in ("min", "max", "numpy.minimum", "numpy.maximum", "numpy.fmin", "numpy.fmax") and len(st_.value.args) == 2):
+            continue
+        tgt = src_of(st_.targets[0])
+        base_ = st_.targets[0].value
+        while isinstance(base_, ast.Attribute):
+            base_ = base_.value
+        if not (isinstance(base_, ast.Name) and base_.id in ext_names):
+            continue
+        n_upd += 1
+        args_ = []
+        for a_ in st_.value.args:
+            v_ = a_
+            if isinstance(a_, ast.Name):
+                v_ = _local_value(a_.id, st_) or a_
+            args_.append(src_of(v_))
+        others = [x for x in args_ if x.replace(".iloc", "").split("[")[0] in ext_names and x != tgt]
+        ck.verdict(tgt in args_ and not others, "C18.b", fi, st_, f"{tgt} is updated from its own previous value", f"{tgt} is rebuilt from {others or args_}, not from its own previous value: the running {'maximum' if 'max' in src_of(st_.value.func) else 'minimum'} forgets earlier draws (or takes the other matrix's), so min <= mean <= max can fail")
     if set(by_kind) == {True, False}:
         ck.verdict(by_kind[True] == by_kind[False], "C18.b", fi, "frame vs array updates", "DataFrame and ndarray updates are the same modulo .iloc", "the DataFrame branch and the ndarray branch of the cell update differ: a frame and its array give different matrices under the same seed")
         cf = {}
@@ -358,6 +399,7 @@ WITNESSES = [
     {"name": "term-r2-like", "file": _C, "rule": "C18.a", "old": "                c = 1 - numpy.var(v - xj_test.ravel())\n", "new": "                c = 1 + numpy.var(v - xj_test.ravel())\n"},
     {"name": "mean-over-draws-plus-one", "file": _C, "rule": "C18.a", "old": "    return cor / draws\n", "new": "    return cor / (draws - 1)\n"},
     {"name": "frame-accumulates-c", "file": _C, "rule": "C18.a", "old": "                    cor.iloc[i, j] += co\n", "new": "                    cor.iloc[i, j] += c\n"},
+    {"name": "frame-max-from-min-cell", "file": _C, "rule": "C18.b", "old": "                            maxi.iloc[i, j] = max(maxi.iloc[i, j], co)\n", "new": "                            maxi.iloc[i, j] = max(mini.iloc[i, j], co)\n"},
     {"name": "array-branch-max-only", "file": _C, "rule": "C18.b", "old": "                            mini[i, j] = min(mini[i, j], co)\n", "new": "                            mini[i, j] = max(mini[i, j], co)\n"},
     {"name": "frame-branch-transposed", "file": _C, "rule": "C18.b", "old": "                    cor.iloc[i, j] += co\n", "new": "                    cor.iloc[j, i] += co\n"},
     {"name": "minmax-init-zero", "file": _C, "rule": "C18.b", "old": "                        if k == 0:\n                            mini[i, j] = co\n", "new": "                        if k == 1:\n                            mini[i, j] = co\n"},
